@@ -60,7 +60,7 @@ class CanonMonitor(Monitor):
 
 class Execution:
     EVAL_CAP = 60000
-    TIME_CAP = 40.0  # seconds of CPU time of this process (not wall clock: the machine may be busy)
+    TIME_CAP = 12.0  # seconds of CPU time of this process (not wall clock: the machine may be busy); healthy executions need 5 ms - 2 s
 
     def __init__(self, desc, dev=(), monitor_classes=(), shim=None, drive=None, keep_world=True):
         self.desc = desc
@@ -370,6 +370,7 @@ def explore(
     t0 = time.time()
     counter = [0]
     completed = [0]
+    aborted = [0]
 
     def run(prefix):
         shim = shim_factory() if shim_factory else None
@@ -380,6 +381,9 @@ def explore(
         res.absorb(x, check_id, unit, nontrivial_rule, sample=(counter[0] in (1, 7)))
         if on_execution is not None:
             on_execution(x)
+        if x.status == "aborted":
+            aborted[0] += 1
+            return x
         if audit_every and (counter[0] % audit_every == 1 or x.violations):
             shim2 = shim_factory() if shim_factory else None
             y = Execution(desc, prefix, monitor_classes, shim=shim2, drive=drive).run()
@@ -389,7 +393,8 @@ def explore(
         return x
 
     def rec(prefix, parent_points):
-        if max_execs is not None and counter[0] >= max_execs:
+        if (max_execs is not None and counter[0] >= max_execs) or aborted[0] >= 2:
+            # (two runaway executions - endless loops inside the library - end the exploration of this world: reported as capped)
             res.capped = True
             return
         x = run(prefix)
